@@ -409,7 +409,7 @@ func (e *Engine) ptrTerm(st *State, p *PtrV) *smt.Term {
 var ifaceCount int
 
 func (e *Engine) typeTag(t types.Type) *smt.Term {
-	return e.C.Var("type$"+typeName(t), smt.BV64)
+	return e.kindConst("type$" + typeName(t))
 }
 
 func (e *Engine) dynType(x *smt.Term) *smt.Term { return e.C.App("dyntype", smt.BV64, x) }
